@@ -101,6 +101,26 @@ def shaped(rng):
     ]
 
 
+def overdue_scenarios(tier):
+    """A callback that is already due when an interrupt arrives - real time passes while the loop iterates
+    (`step_cost_ns`) or while a tick is in progress: the interrupt of the same component (or, for a system,
+    of another inner component) is then stamped LATER than the pending callback and must not displace it.
+    Flat: X periodic in front of a chain that makes ticks long; nested: a system with two inner periodic
+    devices of different periods and a quiet inner device that is interrupted."""
+    from .c07 import dev
+    MS = 1_000_000
+    out = []
+    for sc in ((1 * MS, 2 * MS) if tier == "quick" else (MS // 2, 1 * MS, 2 * MS, 3 * MS)):
+        for real in ((8, 12, 15, 20, 30) if tier == "quick" else range(4, 44, 2)):
+            out.append({"components": [dev("X", cb={"kind": "period", "p": 10 * MS}), dev("Y", {"i": ["X", "o"]}), dev("Z", {"i": ["Y", "o"]}), dev("W", {"i": ["Z", "o"]})],
+                        "n_ticks": 5, "step_cost_ns": sc, "stims": [{"real": real * MS, "comp": "X"}]})
+            out.append({"components": [{"name": "sys", "kind": "sys", "inputs": {}, "expose": {"y": ["A", "o"]}, "components": [
+                dev("A", cb={"kind": "period", "p": 10 * MS}), dev("B", cb={"kind": "period", "p": 20 * MS}), dev("Q")]},
+                dev("c1", {"i": ["sys", "y"]}), dev("c2", {"i": ["c1", "o"]}), dev("c3", {"i": ["c2", "o"]})],
+                "n_ticks": 6, "step_cost_ns": sc, "stims": [{"real": real * MS, "comp": "Q"}]})
+    return out
+
+
 def tweak(scn, rng):
     # make simultaneous callbacks likely and add interrupts between ticks
     if rng.random() < 0.5:
@@ -131,6 +151,11 @@ def run(tier, seed, drv):
             res.case(SC.scn_key(scn) + b, nontrivial=True)
             res.count("shaped")
             SC.check_run(scn, run_, drv, res, monitors_on=MON, corr=CORR, case_extra={"bus": b, "held_seed": seed}, with_real=True)
+    for scn in overdue_scenarios(tier):
+        run_ = run_scenario(scn, bus="sync", seed=seed)
+        res.case(SC.scn_key(scn), nontrivial=True)
+        res.count("overdue-callback-vs-interrupt")
+        SC.check_run(scn, run_, drv, res, monitors_on=MON, corr=("ticker",), case_extra={"bus": "sync"})
     return res
 
 
